@@ -36,3 +36,31 @@ theorem C02_mapfork (p : Prov.P) (labels : List ℕ) (dist util : List (List ℚ
   exact ⟨counts, hq1, hl, hk⟩
 #print axioms oracleSpec_of_C09
 #print axioms C02_mapfork
+
+/-- every conjunctive provenance on which `compile` succeeds: no oracle hypothesis, no `build` hypothesis left -/
+theorem C02_exact (p : Prov.P) (labels : List ℕ) (dist util : List (List ℚ)) (nulls : List ℚ) (K c : ℕ)
+    (orders : ℕ → List ℕ) (hK : 1 ≤ K)
+    (hconj : Ds.Oracle.Conjunctive p) (hcands : p.nCands = 2) (hn : 2 ≤ p.nUnits)
+    (hshape : p.nConj = 1 → OneUnit p)
+    (cmp : Compiled (AVal (Dom.tally (p.nUnits - 1) K c))) (hcmp : compile p = .ok cmp)
+    (hperm : ∀ j < nulls.length, (orders j).Perm (List.range p.data.length))
+    (hsort : ∀ j < nulls.length,
+      (orders j).Pairwise (fun r s => (dist.map (·.getD j 0)).getD r 0 < (dist.map (·.getD j 0)).getD s 0))
+    (hlab : ∀ r < p.data.length, labels.getD r 0 < c) :
+    ∃ L : List ℚ, scores p labels dist util nulls K c = .ok L ∧ L.length = p.nUnits ∧
+      ∀ i : Fin p.nUnits, L.getD i.val 0
+        = Sh.phiM (fun S => (∑ j ∈ Finset.range nulls.length,
+            knnGame p labels (orders j) (util.map (·.getD j 0)) (nulls.getD j 0) K c S)
+              / (nulls.length : ℚ)) i := by
+  apply DsProofs.C02.C02_main p labels dist util nulls K c orders hK hperm hsort hlab
+  intro j _
+  have hc := (C09_compile p cmp hconj hcands hshape hcmp).2.2.2.2.2.2.2
+  generalize dist.map (·.getD j 0) = dj
+  obtain ⟨b, hb, _⟩ := hc c labels dj
+  refine ⟨b, hb, ?_⟩
+  intro i hi t1 h1 t2 h2
+  have hex := C09_exact (p.nUnits - 1) K c p labels dj b hconj hcands hn
+    hshape hb i hi (some t1) t2 (by intro t h; cases h; exact h1) h2
+  obtain ⟨counts, hq1, hl, hk, _⟩ := hex
+  exact ⟨counts, hq1, hl, hk⟩
+#print axioms C02_exact
